@@ -352,6 +352,19 @@ class SimExecutor:
         return False
 
 
+class _ExecutorSwitch:
+    """concurrent.futures.ThreadPoolExecutor as seen process-wide: the simulated pool inside a simulated
+    invocation, the real one everywhere else"""
+
+    def __new__(cls, *a, **kw):
+        if CUR is not None and is_main():
+            return SimExecutor(*a, **kw)
+        return _REAL_TPE(*a, **kw)
+
+
+_REAL_TPE = concurrent.futures.ThreadPoolExecutor
+
+
 # ------------------------------------------------------------------------------------------
 # own stdout / stderr of the simulated cond process
 
@@ -950,6 +963,39 @@ class _FakeDatetimeMod:
 
 
 _INSTALLED = False
+_PRISTINE = []     # (owner, attribute name, value) for simple conductor globals / class attributes
+
+
+def _record_pristine_state():
+    """module-level and class-level attributes of conductor that hold None / bool / int / float / str:
+    a fresh process starts with these values (singletons such as SigchldHelper._Instance, counters,
+    flags), so every emulated process start restores them - whatever they are called"""
+    simple = (type(None), bool, int, float, str)
+    for name, mod in sorted(sys.modules.items()):
+        if not (name == "conductor" or name.startswith("conductor.")) or mod is None:
+            continue
+        if "proto_gen" in name:
+            continue
+        for k, v in list(vars(mod).items()):
+            if k.startswith("__"):
+                continue
+            if isinstance(v, simple):
+                _PRISTINE.append((mod, k, v))
+            elif isinstance(v, type) and getattr(v, "__module__", None) == name:
+                for ck, cv in list(vars(v).items()):
+                    if not ck.startswith("__") and isinstance(cv, simple):
+                        _PRISTINE.append((v, ck, cv))
+
+
+def restore_pristine_state():
+    for owner, k, v in _PRISTINE:
+        try:
+            if getattr(owner, k, None) is not v and getattr(owner, k, None) != v:
+                setattr(owner, k, v)
+            elif type(getattr(owner, k, None)) is not type(v):
+                setattr(owner, k, v)
+        except Exception:
+            pass
 
 
 def install():
@@ -999,6 +1045,25 @@ def install():
             return s.git.run(argv, **kw)
 
     cgit.subprocess = _GitSubprocess
+
+    # the same seams at their global names, in case a module binds them differently
+    import concurrent.futures.thread as _cft
+
+    concurrent.futures.ThreadPoolExecutor = _ExecutorSwitch
+    _cft.ThreadPoolExecutor = _ExecutorSwitch
+
+    def _global_run(argv, *a, **kw):
+        s = CUR
+        try:
+            is_git = (not isinstance(argv, str)) and len(argv) > 0 and os.path.basename(os.fspath(argv[0])) == "git"
+        except Exception:
+            is_git = False
+        if s is not None and is_git and is_main() and s.git is not None and not s.knobs.get("real_git"):
+            return s.git.run(list(argv), *a, **kw)
+        return REAL.subprocess_run(argv, *a, **kw)
+
+    subprocess.run = _global_run
+    _record_pristine_state()
     _INSTALLED = True
 
 
@@ -1557,7 +1622,6 @@ class Sim:
         "env": {...}, "scripts": {...}, "signal": {"sig": "INT", "cp": k}, "kill": k, "uid": str}"""
         global CUR
         import conductor.__main__ as cmain
-        import conductor.utils.sigchld as csig
 
         install()
         self._reset_inv()
@@ -1601,14 +1665,8 @@ class Sim:
                              line_buffering=True)
         sys.stderr = ErrText(io.BufferedWriter(esink), encoding="utf-8", errors="backslashreplace",
                              line_buffering=True)
-        csig.SigchldHelper._Instance = None
         subprocess._active.clear()
-        # module-level state of a fresh process
-        import conductor.errors.signal as cerrsig
-
-        for name, val in (("_defer_depth", 0), ("_abort_pending", False)):
-            if hasattr(cerrsig, name):
-                setattr(cerrsig, name, val)
+        restore_pristine_state()      # module-level / class-level state of a fresh process
         gc_was = gc.isenabled()
         gc.disable()
         inv.t0 = self.clock
@@ -1686,7 +1744,7 @@ class Sim:
                     except OSError:
                         pass
                 p.fds = {}
-            csig.SigchldHelper._Instance = None
+            restore_pristine_state()
             subprocess._active.clear()
             sys.argv = saved_argv
             os.chdir(saved_cwd)
